@@ -35,6 +35,7 @@ TRUSTED = [
     "hand model lean/OrqModel/Model/*.lean tied to /repo by the line-protocol correspondence check (harness/)",
     "expression evaluation (YAQL/Jinja) is a parameter of the model; the driver evaluates a fragment",
     "provider contract: an offered action is reported started before any other call",
+    "the model's ghost publication log (WState.pubLog) is written once and read nowhere: audited textually on every run, not proved",
 ]
 
 PROPS = {
